@@ -24,3 +24,8 @@ CONSTANTS
   EditVals = {45, 10, 88, 233}
   Depth = 8
 INVARIANT Emit
+INVARIANT ContentExact
+INVARIANT SizeFailureSticks
+INVARIANT CorruptionIsErrorOrWellDefined
+PROPERTY MCBufferLimitExact
+PROPERTY MCProgress
